@@ -1,0 +1,61 @@
+// Copyright ©2026 The Gonum Authors. All rights reserved.
+// Use of this source code is governed by a BSD-style
+// license that can be found in the LICENSE file.
+
+//go:build verif
+
+package fourier
+
+// Machine-checked contracts for the index helpers of this package
+// (verification hook, build tag verif; this file contains comments only).
+// See /verif/DESIGN.md. The transform values themselves are not specified.
+
+//@ spec shift(n int, i int) int = ite(i < n/2, i+(n+1)/2, i-n/2)
+//@ spec unshift(n int, i int) int = ite(i < (n+1)/2, i+n/2, i-(n+1)/2)
+
+//@ func CmplxFFT.ShiftIdx props: C17 C07(safety)
+//@ requires t != nil
+//@ valid 0 <= i && i < len(t.work)/4
+//@ panics iff !valid, before-writes
+//@ ensures result == shift(len(t.work)/4, i)
+//@ ensures 0 <= result && result < len(t.work)/4
+
+//@ func CmplxFFT.UnshiftIdx props: C17 C07(safety)
+//@ requires t != nil
+//@ valid 0 <= i && i < len(t.work)/4
+//@ panics iff !valid, before-writes
+//@ ensures result == unshift(len(t.work)/4, i)
+//@ ensures 0 <= result && result < len(t.work)/4
+
+//@ func CmplxFFT.Freq props: C17 C07(safety)
+//@ requires t != nil
+//@ valid 0 <= i && i < len(t.work)/4
+//@ panics iff !valid, before-writes
+
+//@ func FFT.Freq props: C17 C07(safety)
+//@ requires t != nil
+//@ valid 0 <= i && i < len(t.real)
+//@ panics iff !valid, before-writes
+
+// Half-complex packing: Coefficients and Sequence address the packed real
+// array and the complex slice within bounds for every length (the transform
+// itself is the trusted fftpack contract).
+
+//@ func FFT.Coefficients props: C17 C07(safety)
+//@ requires t != nil && len(t.work) >= 2*len(t.real) && len(t.real) >= 1
+//@ valid len(seq) == len(t.real) && (dst == nil || len(dst) == len(t.real)/2+1)
+//@ panics iff !valid
+//@ ensures len(result) == len(t.real)/2+1
+
+//@ func FFT.Sequence props: C17 C07(safety)
+//@ requires t != nil && len(t.work) >= 2*len(t.real) && len(t.real) >= 1
+//@ valid len(coeff) == len(t.real)/2+1 && (dst == nil || len(dst) == len(t.real))
+//@ panics iff !valid
+//@ ensures len(result) == len(t.real)
+
+// ShiftIdx and UnshiftIdx are mutually inverse bijections of [0, n) for every n.
+
+//@ lemma shift_unshift_inverse props: C17
+//@ var n int, i int
+//@ hyp n >= 1 && 0 <= i && i < n
+//@ goal unshift(n, shift(n, i)) == i && shift(n, unshift(n, i)) == i && 0 <= shift(n, i) && shift(n, i) < n && 0 <= unshift(n, i) && unshift(n, i) < n
